@@ -221,10 +221,27 @@ async fn one(ctx: &mut Ctx, case: u64, rng: &mut Rng, ep: &Endpoint, gossip: &Go
         trace.push("engine dropped".into());
     }
     let mut live = HashSet::new();
-    match tokio::time::timeout(Duration::from_secs(20), cb(&mut live)).await {
-        Err(_) => ctx.harness_error("the protect callback did not answer within 20 s after the engine went away"),
+    let wait = std::env::var("VCHECK_CB_WAIT_S").ok().and_then(|v| v.parse().ok()).unwrap_or(20u64);
+    let t_cb = std::time::Instant::now();
+    match tokio::time::timeout(Duration::from_secs(wait), cb(&mut live)).await {
+        Err(_) => {
+            if let Ok(path) = std::env::var("VCHECK_HANG_GDB") {
+                let out = std::process::Command::new("gdb").args(["-p", &std::process::id().to_string(), "-batch", "-ex", "thread apply all bt 40"]).output();
+                if let Ok(o) = out {
+                    let _ = std::fs::write(format!("{path}.{}", std::process::id()), o.stdout);
+                }
+            }
+            if let Ok(v) = std::env::var("VCHECK_HANG_SLEEP") {
+                eprintln!("HANG pid {}", std::process::id());
+                std::thread::sleep(Duration::from_secs(v.parse().unwrap_or(60)));
+            }
+            ctx.harness_error(format!("the protect callback did not answer within {wait} s after the engine went away (how={how}, trace {trace:?})"))
+        }
         Ok(outcome) => {
             ctx.count("protect_callback_calls_after_the_engine_went_away", 1);
+            if t_cb.elapsed() > Duration::from_secs(5) {
+                ctx.note(format!("protect callback took {:?} after the engine went away", t_cb.elapsed()));
+            }
             let got: BTreeSet<[u8; 32]> = live.iter().filter(|h| **h != Hash::EMPTY).map(|h| *h.as_bytes()).collect();
             match outcome {
                 ProtectOutcome::Abort => ctx.count("collector_told_to_abort", 1),
